@@ -349,7 +349,7 @@ func (fi *FuncInfo) sym1(v ssa.Value, depth int) *Sym {
 					}
 				}
 				// field of a local struct cell that is written exactly once as a whole
-				if r := loc.Root(); r.K == KAlloc && loc.K == KField {
+				if r := loc.Root(); r.K == KAlloc && (loc.K == KField || loc.K == KIndex) {
 					if whole := fi.structCellValue(r.V); whole != nil {
 						return substRoot(loc, r, rec(whole))
 					}
@@ -587,7 +587,9 @@ func (fi *FuncInfo) structCellValue(cell ssa.Value) ssa.Value {
 	if !ok {
 		return nil
 	}
-	if _, ok := al.Type().(*types.Pointer).Elem().Underlying().(*types.Struct); !ok {
+	switch al.Type().(*types.Pointer).Elem().Underlying().(type) {
+	case *types.Struct, *types.Array:
+	default:
 		return nil
 	}
 	var stored ssa.Value
@@ -603,6 +605,12 @@ func (fi *FuncInfo) structCellValue(cell ssa.Value) ssa.Value {
 			if fieldAddrWritten(r) {
 				return nil
 			}
+		case *ssa.IndexAddr:
+			if indexAddrWritten(r) {
+				return nil
+			}
+		case *ssa.Slice:
+			return nil
 		case *ssa.MakeClosure:
 			return nil
 		case *ssa.Call:
@@ -616,6 +624,25 @@ func (fi *FuncInfo) structCellValue(cell ssa.Value) ssa.Value {
 		return nil
 	}
 	return stored
+}
+
+func indexAddrWritten(ia *ssa.IndexAddr) bool {
+	for _, ref := range *ia.Referrers() {
+		switch r := ref.(type) {
+		case *ssa.Store:
+			if r.Addr == ia {
+				return true
+			}
+		case *ssa.UnOp:
+		case *ssa.FieldAddr:
+			if fieldAddrWritten(r) {
+				return true
+			}
+		default:
+			return true
+		}
+	}
+	return false
 }
 
 func fieldAddrWritten(fa *ssa.FieldAddr) bool {
